@@ -289,4 +289,12 @@ theorem C05_py_reverse_index (occ : List Nat) (n : Nat) :
     GenPy.init_bitstring_groundstate (n : Int) = ((2 ^ n - 1 : Nat) : Int) :=
   ⟨GenPy.py_reverse_integer_index occ, GenPy.py_init_bitstring_groundstate n⟩
 
+/-- one iteration of the Python `_build_mapping` loop *as it stands in /repo* (translated on every run) appends exactly
+    `mappingEntry` — hence, by `C05_single_exc` / `C05_number_op`, the Spec action of `a†_i a_j` on the string, with
+    its sign — for every (unbounded) string and every orbital pair -/
+theorem C05_py_build_mapping (s i j : Nat) :
+    GenPy.build_mapping_entry (s : Int) (i : Int) (j : Int) =
+      (mappingEntry i j s).map (fun x => ((x.1 : Int), (x.2.1 : Int), if x.2.2 then (-1 : Int) else 1)) :=
+  GenPy.py_build_mapping_entry s i j
+
 end C05
